@@ -7,6 +7,14 @@ Record fstep := { fs_arg : string; fs_ret : obs; fs_err : obs; fs_cfg : value;
 Inductive case :=
 | CFlags (o : nopts) (autoBool : bool) (init : value) (steps : list fstep).
 
+(* a plain (non-ucfg) error carries its message in the path field: the model does not
+   predict message texts *)
+Definition eobs_eqb (a b : obs) : bool :=
+  match a, b with
+  | OE EOther _, OE EOther _ => true
+  | _, _ => obs_eqb a b
+  end.
+
 Fixpoint steps_agree (o : nopts) (autoBool : bool) (st : fstate) (ss : list fstep) : bool :=
   match ss with
   | [] => true
@@ -15,7 +23,7 @@ Fixpoint steps_agree (o : nopts) (autoBool : bool) (st : fstate) (ss : list fste
     match ret with
     | OSkip => true
     | _ =>
-      obs_eqb ret (fs_ret s) && obs_eqb (f_err st') (fs_err s) && value_eqb (f_cfg st') (fs_cfg s)
+      eobs_eqb ret (fs_ret s) && eobs_eqb (f_err st') (fs_err s) && value_eqb (f_cfg st') (fs_cfg s)
       && steps_agree o autoBool st' r
     end
   end.
